@@ -119,7 +119,7 @@ fn run_hx(prop: &str, tier: &str) -> i32 {
         per_scenario.push(serde_json::json!({
             "scenario": r.scenario, "seeds": r.seeds, "histories": r.nodes, "distinct_states": r.states,
             "distinct_outcomes": r.outcomes, "noop_pruned": r.noop_pruned, "max_depth": r.max_depth,
-            "capped": r.capped, "wall_s": r.wall_s,
+            "capped": r.capped, "wall_s": r.wall_s, "complete_below_depth_when_capped": r.complete_below_depth,
             "budget": serde_json::to_value(sc.budget()).unwrap(),
             "extra": sc.extra_evidence(),
         }));
